@@ -537,7 +537,7 @@ def lagrange(pairs):
   A Poly instance that allows finding the interpolated value for any ``x``.
 
   """
-  return lagrange.func(pairs)(x)
+  return Poly(lagrange.func(pairs)(x)) # Poly even for a single point
 
 
 @tostream
